@@ -31,3 +31,79 @@ package main
 //@   ensures[C16] removed: err == nil ==> !(mid in s.crew.Machines)
 //@   ensures[C16] rollback: err != nil ==> ((mid in s.crew.Machines) <==> old(mid in s.crew.Machines)) && s.crew.Machines[mid] == old(s.crew.Machines[mid])
 //@   ensures[C16] others: forall k string :: k != mid ==> ((k in s.crew.Machines) <==> old(k in s.crew.Machines)) && s.crew.Machines[k] == old(s.crew.Machines[k])
+
+// ---- routing (C14, mcrew host) ----
+
+// toHTTP starts an HTTP request in a goroutine; toTimers adds or removes a
+// timer (timers.go, storage: not verified). Neither touches the crew.
+//@ func (*Service).toHTTP returns err
+//@   trusted
+//@   modifies nothing
+//@ func (*Service).toTimers returns err
+//@   trusted
+//@   modifies s.timers.timers
+//@ func (*Service).err
+//@   modifies nothing
+
+// Route: reserved names go to their service and to no machine; a single id goes to that machine only; everything else to all.
+//@ func (*Service).Route returns mids, all, err
+//@   safety C14
+//@   requires s != nil
+//@   modifies s.timers.timers
+//@   ensures[C14] noerr: err == nil
+//@   ensures[C14] unaddressed: !is(msg, map[string]interface{}) ==> all && len(mids) == 0
+//@   ensures[C14] single: is(msg, map[string]interface{}) && ("to" in as(msg, map[string]interface{})) && is(as(msg, map[string]interface{})["to"], string)
+//@                        ==> !all && (as(as(msg, map[string]interface{})["to"], string) == "ws" || as(as(msg, map[string]interface{})["to"], string) == "http" || as(as(msg, map[string]interface{})["to"], string) == "timers"
+//@                              ? len(mids) == 0
+//@                              : len(mids) == 1 && mids[0] == as(as(msg, map[string]interface{})["to"], string))
+
+// ---- Process: memory advances only with a successful write (C16) ----
+
+//@ func (*Service).trf
+//@   trusted
+//@   pure
+//@ func JS returns s
+//@   trusted
+//@   pure
+//@ func Render returns err
+//@   trusted
+//@   modifies nothing
+//@ func NewWrappedError returns e
+//@   trusted
+//@   modifies nothing
+
+// GetSpec reads and compiles a spec file (file system, yaml: not verified).
+// What it returns on success is a *core.Spec that Compile accepted.
+//@ func (*Service).GetSpec returns sp, err
+//@   trusted
+//@   modifies nothing
+//@   ensures err == nil ==> is(sp, *core.Spec) && as(sp, *core.Spec) != nil && wfSpec(as(sp, *core.Spec))
+
+//@ func AsMachinesStates returns acc
+//@   safety C16
+//@   requires forall k string :: (k in changes) ==> changes[k] != nil
+//@   modifies nothing
+//@   ensures[C16] keys: forall i int :: 0 <= i && i < len(acc) ==> acc[i] != nil && fresh(acc[i]) && (acc[i].Mid in changes)
+//@   ensures cap(acc) == 0 || fresh(acc)
+//@   loop 0 invariant (cap(acc) == 0 || fresh(acc)) && forall i int :: 0 <= i && i < len(acc) ==> acc[i] != nil && fresh(acc[i]) && (acc[i].Mid in changes)
+
+// wfMachines: every machine of the crew is non-nil with a state and a spec source.
+//@ spec wfMachines(s) = s.crew.Machines != nil && forall k string :: (k in s.crew.Machines) ==> s.crew.Machines[k] != nil && s.crew.Machines[k].State != nil && s.crew.Machines[k].SpecSource != nil
+//@ spec sameStates(s) = forall k string :: (k in s.crew.Machines) ==> s.crew.Machines[k].State == old(s.crew.Machines[k].State)
+//@ spec wfWalkeds(p) = forall k string :: (k in p) ==> p[k] != nil && forall j int :: 0 <= j && j < len(p[k].Strides) ==> p[k].Strides[j] != nil && p[k].Strides[j].Events != nil
+
+//@ func (*Service).Process returns processed, err
+//@   safety C16
+//@   deferred
+//@   requires s != nil && s.store != nil && wfMachines(s)
+//@   requires ctl != nil ==> ctl.Limit >= 0 && forall id string :: (id in ctl.Breakpoints) ==> ctl.Breakpoints[id] != nil
+//@   ensures[C16] nocall: ncalls("cmd/mcrew.(*Storage).WriteState") == old(ncalls("cmd/mcrew.(*Storage).WriteState")) ==> sameStates(s)
+//@   ensures[C16] nowrite: ncalls("cmd/mcrew.(*Storage).WriteState") != old(ncalls("cmd/mcrew.(*Storage).WriteState")) && lastret("cmd/mcrew.(*Storage).WriteState", err) != nil ==> sameStates(s)
+//@   ensures[C16] once: ncalls("cmd/mcrew.(*Storage).WriteState") <= old(ncalls("cmd/mcrew.(*Storage).WriteState")) + 1
+//@   ensures[C16] samekeys: forall k string :: (k in s.crew.Machines) <==> old(k in s.crew.Machines)
+//@   ensures[C16] samemachines: forall k string :: (k in s.crew.Machines) ==> s.crew.Machines[k] == old(s.crew.Machines[k]) && s.crew.Machines[k].SpecSource == old(s.crew.Machines[k].SpecSource)
+//@   loop 1 invariant forall k string :: (k in specs) ==> specs[k] != nil && wfSpec(specs[k])
+//@   loop 2 invariant forall k string :: (k in states) ==> states[k] != nil && (k in s.crew.Machines)
+//@   loop 2 invariant wfWalkeds(processed)
+//@   loop 3 invariant forall i int :: 0 <= i && i < len(mss) ==> mss[i] != nil && (mss[i].Mid in states)
+//@   loop 4 invariant forall k string :: (k in s.crew.Machines) ==> s.crew.Machines[k].State != nil && s.crew.Machines[k].SpecSource == old(s.crew.Machines[k].SpecSource)
